@@ -188,6 +188,20 @@ func (w *World) checkValidity(after string) {
 		b := s.Bytes()
 		if !ref.ScalarCanonical(b) {
 			w.r.Violate("C18", "non-canonical-scalar", after, w.step, "after %s: scalar slot %d encodes to %x >= n", after, i, b)
+			continue
+		}
+		// canonical also means: the object is the residue its encoding
+		// names, not another representative of it (limbs holding n for 0
+		// encode as 0 but are neither zero nor equal to a decoded 0)
+		var b32 [32]byte
+		copy(b32[:], b)
+		t, err := secp256k1.NewScalarFromCanonicalBytes(&b32)
+		if err != nil {
+			continue
+		}
+		isZero := ref.OS2IP(b).Sign() == 0
+		if s.Equal(t) != 1 || t.Equal(s) != 1 || (s.IsZero() == 1) != isZero {
+			w.r.Violate("C18", "non-canonical-scalar", after, w.step, "after %s: scalar slot %d encodes to %x but is not the scalar that encoding decodes to (Equal=%d/%d IsZero=%d): a non-canonical representative", after, i, b, s.Equal(t), t.Equal(s), s.IsZero())
 		}
 	}
 }
